@@ -411,6 +411,16 @@ def invariant(s, ctx):
             if not np.array_equal(o.real.ndata[c], o.cols[c]):
                 ctx.fail("owner/content-changed-without-a-write-to-it" if True else "",
                          f"owner {k} ({o.kind}) column {c}: {o.real.ndata[c].tolist()} vs model {o.cols[c].tolist()}")
+        # the owner's own bulk accessors answer from the same columns, however often they were asked before
+        real = o.real
+        if hasattr(real, "xyzr"):
+            ctx.check(np.array_equal(real.xyz(), np.stack([o.cols[c] for c in "xyz"], axis=1)), "owner/xyz-follows-the-columns",
+                      lambda: f"owner {k} ({o.kind})")
+            ctx.check(np.array_equal(real.xyzr(), np.stack([o.cols[c] for c in "xyzr"], axis=1)), "owner/xyzr-follows-the-columns",
+                      lambda: f"owner {k} ({o.kind})")
+            ctx.check(np.array_equal(real.x(), o.cols["x"]) and np.array_equal(real.r(), o.cols["r"]) and
+                      np.array_equal(real.type(), o.cols["type"]) and np.array_equal(real.pid(), o.cols["pid"]) and
+                      np.array_equal(real.get_ndata("z"), o.cols["z"]), "owner/accessors-follow-the-columns", lambda: f"owner {k} ({o.kind})")
     for v in s.views[-12:]:
         _check_view(s, ctx, v)
 
@@ -484,7 +494,84 @@ def run_btcopy(case, ctx):
     ctx.check(not _bt_equal(_bt_content(edited), kept_before), "branch_tree/edit-took-effect", "")
 
 
+# ----------------------------------------------------------------------------- views of large trees
+@st.composite
+def bulk_strategy(draw, tier):
+    return {"tree": {"bulk": [draw(st.integers(0, 2 ** 31 - 1)), draw(st.sampled_from([32769, 40000, 65535, 65536, 70000, 256, 257])),
+                              draw(st.sampled_from(["uniform", "caterpillar", "binary"])), "lattice"]},
+            "sel": draw(st.lists(st.integers(0, 10 ** 6), min_size=6, max_size=6))}
+
+
+def run_bulk(case, ctx):
+    from swcgeom.core import Tree
+
+    t = gen_tree.materialize(case["tree"])
+    n = len(t["parents"])
+    par = t["parents"]
+    tree = gen_tree.build_tree(t)
+    tag = np.array(t["tag"])
+    xs = np.array(t["x"], dtype=np.float32)
+    ctx.cls(f"bulk:n={n}")
+    ctx.nontrivial(n > 32768)
+    picks = sorted({n - 1, n - 2, n // 2 + 1, 32768 % n, 32769 % n, 65535 % n} | {v % n for v in case["sel"]})
+    picks = [i for i in picks if i > 0]
+    # node handles, by position and by negative position
+    for i in picks:
+        for nd in (tree[i], tree[i - n], tree.node(i)):
+            ctx.check(int(nd["tag"]) == int(tag[i]) and float(nd.x) == float(xs[i]) and int(nd.pid) == par[i], "bulk/node-handle",
+                      lambda: f"node {i} of {n}: tag {nd['tag']} vs {tag[i]}")
+    # the tree's segments are its (parent, child) pairs
+    segs = ctx.lib("tree.get_segments", tree.get_segments)
+    ctx.check(len(segs) == n - 1, "bulk/tree-segments/count", f"{len(segs)} for {n} nodes")
+    want = {(int(tag[par[i]]), int(tag[i])) for i in picks}
+    got = set()
+    for k in {i - 1 for i in picks} | {len(segs) - 1}:
+        sg = segs[k]
+        pair = tuple(int(v) for v in sg.get_ndata("tag"))
+        got.add(pair)
+        child = int(sg.origin_id()[1])
+        ctx.check(pair == (int(tag[par[child]]), int(tag[child])) and sg.x().tolist() == [float(xs[par[child]]), float(xs[child])],
+                  "bulk/tree-segments/parent-child-pairs", lambda: f"segment {k} of {n - 1}: tags {pair}, origin ids {sg.origin_id().tolist()}")
+    ctx.check(want <= got, "bulk/tree-segments/parent-child-pairs", lambda: f"missing pairs {sorted(want - got)[:3]}")
+    # paths built over chosen positions (root-to-node walks), their slices and segments
+    for i in picks[-4:]:
+        walk = [i] + models.ancestors(par, i)
+        walk.reverse()
+        pth = Tree.Path(tree, walk)
+        ctx.check(pth.get_ndata("tag").tolist() == tag[walk].tolist() and pth.x().tolist() == xs[walk].tolist(),
+                  "bulk/path/reads-its-nodes-in-order", lambda: f"path to node {i} of {n}")
+        ctx.check([int(nd["tag"]) for nd in pth[-2:]] == tag[walk[-2:]].tolist() and int(pth[-1]["tag"]) == int(tag[i]),
+                  "bulk/path/negative-positions-and-slices", lambda: f"path to node {i} of {n}")
+        if len(walk) >= 2:
+            cp = Tree.Compartment(tree, walk[-2], walk[-1])
+            ctx.check(cp.get_ndata("tag").tolist() == tag[walk[-2:]].tolist(), "bulk/compartment/reads-its-two-nodes", lambda: f"nodes {walk[-2:]}")
+    # branches: those reaching the chosen nodes
+    brs = ctx.lib("tree.get_branches", tree.get_branches)
+    seen = 0
+    for br in brs:
+        ids = br.origin_id()
+        if int(ids[-1]) >= n - 40 or int(ids.max()) >= 32768 and seen < 300:
+            seen += 1
+            ctx.check(br.get_ndata("tag").tolist() == tag[ids].tolist() and br.x().tolist() == xs[ids].tolist(),
+                      "bulk/branch/reads-its-nodes-in-order", lambda: f"branch {ids.tolist()[:6]}... of a tree of {n}")
+            ctx.check(all(par[int(b)] == int(a) for a, b in zip(ids[:-1], ids[1:])), "bulk/branch/consecutive-nodes-are-parent-and-child",
+                      lambda: f"branch {ids.tolist()[:6]}")
+            sgs = br.get_segments()
+            ctx.check(len(sgs) == len(ids) - 1 and sgs[len(sgs) - 1].get_ndata("tag").tolist() == tag[ids[-2:]].tolist(),
+                      "bulk/branch/segments-are-consecutive-pairs", lambda: f"branch {ids.tolist()[:6]}")
+    ctx.check(seen > 0 or n <= 300, "bulk/branch/some-branch-reaches-the-high-positions", "")
+    # writes through a handle at a high position are seen by every view; a copy is independent
+    i = picks[-1]
+    cp = tree.copy()
+    tree[i - n].x = 4321.5
+    ctx.check(float(tree.x()[i]) == 4321.5 and float(tree.xyz()[i, 0]) == 4321.5 and float(segs[i - 1].x()[1]) == 4321.5,
+              "bulk/write-through-a-handle-is-visible", f"node {i} of {n}")
+    ctx.check(float(cp.x()[i]) == float(xs[i]), "bulk/copy-is-independent", f"node {i} of {n}")
+
+
 SUBCHECKS = [
+    Sub("bulk", bulk_strategy, run_bulk, quick=16, thorough=96, shards_quick=8, shards_thorough=16,
+        required={"bulk:n=40000": 1, "bulk:n=65535": 1}),
     Machine("views", init_strategy,
             {"node": I2, "slice": SL, "relatives": I2, "path": I2, "branch": I2, "tree_segments": I1, "branch_segments": I1,
              "index_path": I2, "collection": I2, "read": I1, "write": WR, "reparent": WR, "write_owner": WR, "detach": I1, "copy": I1, "adjacency": I1},
